@@ -159,6 +159,16 @@ func safeModeSweep(c *Ctx, targeted []string, each func(cf Cfg, it docItem, out 
 			// the large streams rotate through the configurations
 			k := i % len(use)
 			use = []mdT{use[k], use[(k+7)%len(use)], use[len(use)-1-(k%2)]}
+			// documents about a feature that an option switches on always meet a configuration with
+			// that option (the rotation alone reaches one only for some document numbers): attribute
+			// blocks with the Attribute option, in HTML and in XHTML
+			if bytes.Contains(it.doc, []byte("{")) {
+				for j, m := range built[w] {
+					if m.cf.Attr && (m.cf.Ext == "core" || m.cf.Ext == "all") && !m.cf.Opts && (j+i)%2 == 0 {
+						use = append(use, m)
+					}
+				}
+			}
 		}
 		for _, m := range use {
 			out, errS, panicS := convertSafe(m.md, it.doc)
